@@ -12,6 +12,9 @@ def opDesign (j : Json) : R Json := do
   let nm ← getNat (← field j "nm")
   let ix0s ← listOf getNat (← field j "ix0")
   let nta := ix0s.length
+  let M ← match fieldOpt j "M" with
+    | some m => listOf (listOf getInt) m
+    | none => pure []
   pure <| Json.mkObj [
     ("s_gamma", cooJ (sGammaRow nt nx) (sGammaCol nt nx)),
     ("s_dalpha", cooJ (sDalphaRow nt nx) (sDalphaCol nt nx)),
@@ -19,6 +22,7 @@ def opDesign (j : Json) : R Json := do
     ("s_ta", listJ (fun ix0 => cooJ (sTaRow nt nx ix0) (sTaCol nt nx ix0)) ix0s),
     ("s_ma", cooJ (sMaRow nm nt) (sMaCol nm nt)),
     ("s_mt", cooJ (sMtRow nm nt nta) (sMtCol nm nt nta)),
+    ("s_mt_data", listJ intJ (sMtData M nt nta)),
     ("d_gamma", cooJ (dGammaRow nt nx) (dGammaCol nt nx)),
     ("d_d", cooJ (dDRow nt nx) (dDCol nt nx)),
     ("d_e", cooJ (dERow nt nx) (dECol nt nx)),
